@@ -9,35 +9,50 @@ namespace sim {
 
 static const char *kUnknownId = "00000000-dead-4bad-8bad-00000000beef";
 
+template<typename T> T World::via_live(int kind, const T &fresh, T Kept::*member) {
+    if (!fresh) return fresh;
+    std::string id;
+    try { id = fresh.id(); } catch (const std::exception &) { return fresh; }
+    std::string key = std::to_string(kind) + ":" + id;
+    auto it = live.find(key);
+    if (it != live.end()) {
+        if (prefer_live) { cnt.inc("live_handles.reused"); return it->second.*member; }
+        return fresh;
+    }
+    if (live.size() < 48) { Kept k; k.kind = kind; k.id = id; k.session = session; k.*member = fresh; live[key] = k; }
+    return fresh;
+}
+#define REMEMBER(kindno, member, expr) do { auto h__ = (expr); if (h__ && live.size() < 48) { Kept k__; k__.kind = kindno; k__.id = h__.id(); k__.session = session; k__.member = h__; live[std::to_string(kindno) + ":" + k__.id] = k__; } } while (0)
+
 Block World::blk(int slot) {
     ndsize_t n = f.blockCount();
     if (!n) return Block();
-    return f.getBlock(((unsigned) slot) % n);
+    return via_live(0, f.getBlock(((unsigned) slot) % n), &Kept::block);
 }
 DataArray World::arr_at(int b, int slot) {
     Block B = blk(b); if (!B) return DataArray();
     ndsize_t n = B.dataArrayCount(); if (!n) return DataArray();
-    return B.getDataArray(((unsigned) slot) % n);
+    return via_live(1, B.getDataArray(((unsigned) slot) % n), &Kept::array);
 }
 DataFrame World::frame_at(int b, int slot) {
     Block B = blk(b); if (!B) return DataFrame();
     ndsize_t n = B.dataFrameCount(); if (!n) return DataFrame();
-    return B.getDataFrame(((unsigned) slot) % n);
+    return via_live(2, B.getDataFrame(((unsigned) slot) % n), &Kept::frame);
 }
 Tag World::tag_at(int b, int slot) {
     Block B = blk(b); if (!B) return Tag();
     ndsize_t n = B.tagCount(); if (!n) return Tag();
-    return B.getTag(((unsigned) slot) % n);
+    return via_live(3, B.getTag(((unsigned) slot) % n), &Kept::tag);
 }
 MultiTag World::mtag_at(int b, int slot) {
     Block B = blk(b); if (!B) return MultiTag();
     ndsize_t n = B.multiTagCount(); if (!n) return MultiTag();
-    return B.getMultiTag(((unsigned) slot) % n);
+    return via_live(4, B.getMultiTag(((unsigned) slot) % n), &Kept::mtag);
 }
 Group World::group_at(int b, int slot) {
     Block B = blk(b); if (!B) return Group();
     ndsize_t n = B.groupCount(); if (!n) return Group();
-    return B.getGroup(((unsigned) slot) % n);
+    return via_live(5, B.getGroup(((unsigned) slot) % n), &Kept::group);
 }
 static void walk_sources(const Source &s, std::vector<Source> &out, int depth) {
     out.push_back(s);
@@ -53,7 +68,7 @@ Source World::source_at(int b, int slot) {
     Block B = blk(b); if (!B) return Source();
     std::vector<Source> v = all_sources(B);
     if (v.empty()) return Source();
-    return v[((unsigned) slot) % v.size()];
+    return via_live(6, v[((unsigned) slot) % v.size()], &Kept::source);
 }
 static void walk_sections(const Section &s, std::vector<Section> &out, int depth) {
     out.push_back(s);
@@ -68,12 +83,12 @@ std::vector<Section> World::all_sections() {
 Section World::section_at(int slot) {
     std::vector<Section> v = all_sections();
     if (v.empty()) return Section();
-    return v[((unsigned) slot) % v.size()];
+    return via_live(7, v[((unsigned) slot) % v.size()], &Kept::section);
 }
 Property World::prop_at(int sec, int slot) {
     Section s = section_at(sec); if (!s) return Property();
     ndsize_t n = s.propertyCount(); if (!n) return Property();
-    return s.getProperty(((unsigned) slot) % n);
+    return via_live(8, s.getProperty(((unsigned) slot) % n), &Kept::property);
 }
 std::string World::pick_type(int sel) {
     static const char *t[] = {"t", "nix.test", "type with space", "t", "t", "t"};
@@ -100,7 +115,7 @@ int World::exec_entity(const Op &op) {
         std::string name = op.s;
         if (a[5] == 1 && f.blockCount()) name = f.getBlock((ndsize_t) 0).id();
         arg_class = f.hasBlock(name) ? "dup" : (name.empty() || name.find('/') != std::string::npos) ? "bad-name" : "fresh";
-        TRY(f.createBlock(name, pick_type(a[0])));
+        TRY(REMEMBER(0, block, f.createBlock(name, pick_type(a[0]))));
     }
     case OP_delete_block: {
         Block b = blk(a[0]); if (!b) return 2;
@@ -116,12 +131,12 @@ int World::exec_entity(const Op &op) {
         if (p == v.size() || section_depth(v[p]) >= 4) {
             if (a[5] == 1 && f.sectionCount()) name = f.getSection((ndsize_t) 0).id();
             arg_class = f.hasSection(name) ? "dup" : (name.empty() || name.find('/') != std::string::npos) ? "bad-name" : "fresh";
-            TRY(f.createSection(name, pick_type(a[1])));
+            TRY(REMEMBER(7, section, f.createSection(name, pick_type(a[1]))));
         }
         Section par = v[p];
         if (a[5] == 1 && par.sectionCount()) name = par.getSection((ndsize_t) 0).id();
         arg_class = par.hasSection(name) ? "dup,nested" : (name.empty() || name.find('/') != std::string::npos) ? "bad-name,nested" : "fresh,nested";
-        TRY(par.createSection(name, pick_type(a[1])));
+        TRY(REMEMBER(7, section, par.createSection(name, pick_type(a[1]))));
     }
     case OP_delete_section: {
         Section s = section_at(a[0]); if (!s) return 2;
@@ -143,11 +158,11 @@ int World::exec_entity(const Op &op) {
         if (p == v.size() || source_depth(b, v[p]) >= 4) {
             if (a[5] == 1 && b.sourceCount()) name = b.getSource((ndsize_t) 0).id();
             arg_class = b.hasSource(name) ? "dup" : (name.empty() || name.find('/') != std::string::npos) ? "bad-name" : "fresh";
-            TRY(b.createSource(name, pick_type(a[2])));
+            TRY(REMEMBER(6, source, b.createSource(name, pick_type(a[2]))));
         }
         Source par = v[p];
         arg_class = par.hasSource(name) ? "dup,nested" : (name.empty() || name.find('/') != std::string::npos) ? "bad-name,nested" : "fresh,nested";
-        TRY(par.createSource(name, pick_type(a[2])));
+        TRY(REMEMBER(6, source, par.createSource(name, pick_type(a[2]))));
     }
     case OP_delete_source: {
         Block b = blk(a[0]); if (!b) return 2;
@@ -186,7 +201,7 @@ int World::exec_entity(const Op &op) {
         std::string name = op.s;
         if (a[5] == 1 && b.tagCount()) name = b.getTag((ndsize_t) 0).id();
         arg_class = b.hasTag(name) ? "dup" : (name.empty() || name.find('/') != std::string::npos) ? "bad-name" : "fresh";
-        TRY(b.createTag(name, pick_type(a[1]), pos));
+        TRY(REMEMBER(3, tag, b.createTag(name, pick_type(a[1]), pos)));
     }
     case OP_delete_tag: {
         Block b = blk(a[0]); if (!b) return 2;
@@ -206,7 +221,7 @@ int World::exec_entity(const Op &op) {
         std::string name = op.s;
         if (b.hasMultiTag(name)) arg_class += ",dup";
         else if (name.empty() || name.find('/') != std::string::npos) arg_class += ",bad-name";
-        TRY(b.createMultiTag(name, pick_type(a[1]), pos));
+        TRY(REMEMBER(4, mtag, b.createMultiTag(name, pick_type(a[1]), pos)));
     }
     case OP_delete_mtag: {
         Block b = blk(a[0]); if (!b) return 2;
@@ -220,7 +235,7 @@ int World::exec_entity(const Op &op) {
         Block b = blk(a[0]); if (!b) return 2;
         std::string name = op.s;
         arg_class = b.hasGroup(name) ? "dup" : (name.empty() || name.find('/') != std::string::npos) ? "bad-name" : "fresh";
-        TRY(b.createGroup(name, pick_type(a[1])));
+        TRY(REMEMBER(5, group, b.createGroup(name, pick_type(a[1]))));
     }
     case OP_delete_group: {
         Block b = blk(a[0]); if (!b) return 2;
